@@ -72,6 +72,14 @@ class Report:
         self.functions_analysed.add(fn if isinstance(fn, str) else fn.name)
 
     # ---- finish
+    def classified(self, rid, name, ok, where, function, signature, message, sample=None):
+        """who-may-write / who-may-call census: `name` must be in the rule's table (ok). A function the rules know (rule vocabulary) that is not in the
+        table is a violation; a function with an unknown name (new or renamed since the rules were written) cannot be judged: it needs classification"""
+        from . import build as _b
+        if ok or _b.known_function(name):
+            return self.require(rid, ok, where, function, signature, message, sample=sample)
+        self.unknown(rid, "%s (at %s) is not in the rule vocabulary and matches no classified role: %s" % (name, where, message))
+
     def finish(self, level="other"):
         known = load_known()
         mine = [k for k in known if k.get("property") == self.prop and k.get("status") == "known"]
